@@ -764,10 +764,69 @@ def unit_l1_wrappers(ctx):
         it.externals.pop("%s.%s" % (libc.name, fn), None)
 
 
+def unit_angc_wrapper(ctx):
+    """AtomicGridsIndexer.reduce_angc_ylm_: every accepted call satisfies the window requires of reduce_angc_to_ylm / reduce_ylm_to_angc that C05 / C10
+    assume (0 <= offset, offset + nalpha <= stride) and hands over arrays of the sizes the C routines address."""
+    from pyvc.interp import ClassV
+    GMOD_ = "ciderpress.dft.grids_indexer"
+    it = ctx.interp
+    gm = it.load_module(GMOD_)
+    libc = gm.ns["libcider"]
+    seen = []
+    for fn in ("reduce_angc_to_ylm", "reduce_ylm_to_angc"):
+        it.externals["%s.%s" % (libc.name, fn)] = (lambda name: (lambda interp, *a: seen.append((name,) + a)))(fn)
+    fq = [GMOD_ + ":AtomicGridsIndexer.reduce_angc_ylm_"]
+    nrad, nlm, nalpha, stride, ngr = 2, 4, 2, 5, 3
+    ix = Obj(gm.ns["AtomicGridsIndexer"])
+    ix.fields.update({"nlm": nlm, "rad_arr": sym_array("rad", (nrad,)), "ylm": sym_array("ylm", (2, nlm)), "rad_loc": np.array([0, 1, ngr]), "ylm_loc": np.array([0, 1]),
+                      "all_weights": sym_array("w", (ngr,))})
+    off = tm.var("offset", "I")
+    for a2y in (True, False):
+        del seen[:]
+        it.hyps = []
+        ps = all_paths(it, lambda: it.call_method(ix, "reduce_angc_ylm_", [sym_array("t", (nrad, nlm, nalpha)), sym_array("g", (ngr, stride))], {"a2y": a2y, "offset": off}))
+        acc = [p for p in ps if p[0] == "return"]
+        ctx.holds("reduce_angc_ylm_[a2y=%s]: some offsets are accepted and some rejected" % a2y, len(acc) >= 1 and len(ps) > len(acc), "%d / %d paths" % (len(acc), len(ps)), fq)
+        for k, (o, v, pc, _) in enumerate(acc):
+            ctx.valid("reduce_angc_ylm_[a2y=%s]: an accepted offset is non-negative (the C routine addresses theta_gq + offset)#%d" % (a2y, k), list(pc), tm.mk_le(tm.ZERO, off), fq,
+                      replay=replay_angc_offset())
+            ctx.valid("reduce_angc_ylm_[a2y=%s]: an accepted window fits the row (offset + nalpha <= stride)#%d" % (a2y, k), list(pc), tm.mk_le(off + nalpha, tm.const(stride)), fq)
+    for fn in ("reduce_angc_to_ylm", "reduce_ylm_to_angc"):
+        it.externals.pop("%s.%s" % (libc.name, fn), None)
+
+
+def replay_angc_offset():
+    def replay(wit):
+        from pyvc import native
+        native.install_shim()
+        import ciderpress.dft.grids_indexer as G
+        rec = []
+
+        class Spy(object):
+            def __getattr__(self, name):
+                return lambda *a: rec.append((name, [getattr(x, "value", None) for x in a]))
+        nrad, nlm, nalpha, stride, ngr = 2, 4, 2, 5, 3
+        ix = G.AtomicGridsIndexer(1, 1, np.ones(nrad), np.zeros(nrad, dtype=np.int32), np.array([0, nrad], dtype=np.int32), np.array([0, 1, ngr], dtype=np.int32),
+                                  np.ones((2, nlm)), np.array([0, 1], dtype=np.int32))
+        ix.set_weights(np.ones(ngr))
+        real = G.libcider
+        G.libcider = Spy()
+        try:
+            try:
+                ix.reduce_angc_ylm_(np.zeros((nrad, nlm, nalpha)), np.zeros((ngr, stride)), a2y=True, offset=-1)
+                accepted = True
+            except AssertionError:
+                accepted = False
+        finally:
+            G.libcider = real
+        return {"reproduced": bool(accepted), "offset": -1, "accepted_and_passed_to_C": accepted, "note": "the C routine would address theta_gq - 1"}
+    return replay
+
+
 def units():
     u = [("semilocal", unit_semilocal), ("other-lengths", unit_other_lengths), ("feature-settings", unit_feature_settings),
          ("reject-params", unit_reject_params), ("reject-plans", unit_reject_plans), ("reject-shapes", unit_reject_shapes),
-         ("c-extents", unit_c_extents), ("coef-wrappers", unit_coef_wrappers), ("l1-wrappers", unit_l1_wrappers)]
+         ("c-extents", unit_c_extents), ("coef-wrappers", unit_coef_wrappers), ("l1-wrappers", unit_l1_wrappers), ("angc-wrapper", unit_angc_wrapper)]
     for v in ("i", "j", "ij", "k"):
         u.append(("nldf-lengths/" + v, unit_nldf_lengths(v)))
     return u
